@@ -274,7 +274,7 @@ func init() {
 		ID:    "C11",
 		Level: "exploration",
 		Rule: "case = one cue list; Unfragment compared with the fix-point specification (stable sort by start; merge the first same-text pair with end_i >= start_j into i, end = max; repeat), survivor identity and content, plus the derived invariants (no same-text cues touch/overlap, set of texts on screen unchanged at every boundary and mid-point) and, where applicable, Unfragment(Fragment(L,f)) == L for f in 1..5 (grid) or random f. " +
-			"Grid (exhaustive): every list of 0..3 cues (0..4 thorough) with s<=e on 0..5 and texts in {a,b,c}, in any order. Random: <=60 cues, 1..3 texts. CLI: 'astisub unfragment'. distinct_nontrivial = distinct lists compared.",
+			"Grid (exhaustive): every list of 0..3 cues (0..4 thorough) with s<=e on 0..5 and texts in {a,b,c}, in any order. Random: <=60 cues, 1..3 texts. CLI: 'astisub unfragment'. One random case in 8 uses texts that collide under FNV-1, FNV-1a, Adler-32, CRC-32 or the 31/33-multiplier string hashes, one in 8 texts that differ only in case, a trailing blank, the normalisation form or the line split; a quarter of the lists have a past (see C09). One random case in 8 uses texts that collide under FNV-1, FNV-1a, Adler-32, CRC-32 or the 31/33-multiplier string hashes, one in 8 texts that differ only in case, a trailing blank, the normalisation form or the line split; a quarter of the lists have a past (see C09). distinct_nontrivial = distinct lists compared.",
 		Assumptions: []string{"text identity of cues is Item.String() equality; generated texts are single-line so it coincides with text equality"},
 		Cases:       func(tier string) int64 { return c11GridN(tier) + randomN(tier) + cliN(tier) },
 		Exhaustive: func(tier string) string {
